@@ -565,3 +565,91 @@ def builder_order_events(rng, nperm=6):
             h.update(np.ascontiguousarray(np.asarray(smp[k])).tobytes())
         evs.append({"ev": "builder_order", "order": perm, "digest": h.hexdigest()[:16], "keys": sorted(smp)})
     return evs
+
+
+# ------------------------------------------------------------------ liesel.logging (Logging.tla)
+def logging_trace(rng, nops=14, tmpdir=None):
+    """Random calls of setup_logger / reset_logger / add_file_handler on the real logging module, with the projected
+    state after each call and - for emitted records - the handlers that received them (a recording filter on every
+    handler sees exactly the records the handler was given and keeps them from being written anywhere)."""
+    import logging
+    import tempfile
+
+    import liesel.logging as LL
+
+    names = {"root": "", "liesel": "liesel", "liesel.goose": "liesel.goose"}
+    lg = {k: logging.getLogger(v) for k, v in names.items()}
+    saved = {k: (list(g.handlers), g.level, g.propagate) for k, g in lg.items()}
+    got = []
+
+    class Rec(logging.Filter):
+        def __init__(self, owner):
+            super().__init__()
+            self.owner = owner
+
+        def filter(self, record):
+            got.append(self.owner)
+            return False
+
+    probe = logging.Handler(0)
+    tmp = tmpdir or tempfile.mkdtemp(prefix="vlog")
+    try:
+        for k, g in lg.items():
+            g.handlers[:] = []
+            g.setLevel(logging.WARNING if k == "root" else logging.NOTSET)
+            g.propagate = True
+        lg["root"].addHandler(probe)
+
+        def arm():
+            for k, g in lg.items():
+                for h in g.handlers:
+                    if not any(isinstance(f, Rec) for f in h.filters):
+                        h.addFilter(Rec(h))
+
+        def obs():
+            kind = lambda h: "file" if isinstance(h, logging.FileHandler) else "stream" if isinstance(h, logging.StreamHandler) else "probe"
+            return {"handlers": {k: [[kind(h), int(h.level)] for h in lg[k].handlers] for k in ("liesel", "liesel.goose")},
+                    "level": {k: int(lg[k].level) for k in ("liesel", "liesel.goose")},
+                    "propagate": {k: bool(lg[k].propagate) for k in ("liesel", "liesel.goose")}}
+
+        ev = []
+        nfile = 0
+        for _ in range(nops):
+            u = rng.random()
+            nh = len(lg["liesel"].handlers)
+            if u < 0.2:
+                LL.setup_logger()
+                ev.append({"ev": "setup", "obs": obs()})
+            elif u < 0.4:
+                LL.reset_logger()
+                ev.append({"ev": "reset", "obs": obs(), "before": nh})
+            elif u < 0.6:
+                name = rng.choice(["liesel", "liesel.goose"])
+                level = rng.choice(["debug", "info", "warning", "error"])
+                nfile += 1
+                LL.add_file_handler(f"{tmp}/sub{nfile % 2}/log{nfile}.log", level, logger=name)
+                ev.append({"ev": "add_file", "logger": name, "level": getattr(logging, level.upper()), "obs": obs()})
+            else:
+                arm()
+                name = rng.choice(["liesel", "liesel.goose", "liesel.goose"])
+                level = rng.choice([10, 20, 30, 40])
+                del got[:]
+                lg[name].log(level, "probe record")
+                deliv = []
+                for h in got:
+                    for k, g in lg.items():
+                        if h in g.handlers:
+                            deliv.append([k, g.handlers.index(h) + 1])
+                ev.append({"ev": "emit", "logger": name, "level": level, "delivered": deliv, "n": len(got)})
+        return {"hdr": {"kind": "logging"}, "ev": ev}
+    finally:
+        for k, g in lg.items():
+            for h in list(g.handlers):
+                if isinstance(h, logging.FileHandler):
+                    h.close()
+            g.handlers[:] = saved[k][0]
+            g.setLevel(saved[k][1])
+            g.propagate = saved[k][2]
+        if tmpdir is None:
+            import shutil
+            shutil.rmtree(tmp, ignore_errors=True)
